@@ -246,7 +246,7 @@ def run(c):
     tie_cores(c, quick)
     run_corpus(c)
     seed = c.seed
-    nrandom = 20000 if quick else 2000000
+    nrandom = 6000 if quick else 2000000
     t0 = time.time()
     recs, tots, aborts = run_shards(REPO, 1, 0, seed, nrandom, 900 if quick else 14000)
     sweep_s = round(time.time() - t0, 1)
@@ -312,15 +312,32 @@ def tie_cores(c, quick):
                                                    rng.randint(0, 1) if rng.random() < 0.1 else 1, w(stamps), w(links)))
     go = run_go(lines, shards=1)
     mo = run_oracle(lines, shards=1)
+    # the implementation must behave like the shipped model on every case, or like the repaired
+    # model on every case (after the nil guards of fixes/C14-3 are applied)
+    bad = {"shipped": None, "repaired": None}
+    npanic = 0
     for l, g, m in zip(lines, go, mo):
         vs = parse_wire(g)
         cls = "x70616e6963" if is_err(vs, "panic") else g
+        npanic += cls == "x70616e6963"
+        ms = m.split()
         c.count("header-core", 1, l)
-        if cls != m:
-            c.report("header validation core: implementation `%s` model (as shipped) `%s` on `%s`" % (g[:120], m, l),
-                     {"case": l, "implementation": g, "model": m,
-                      "rerun": "echo '%s' | bin/vharness ; echo '%s' | bin/oracle" % (l, l)})
-            break
+        if len(ms) != 2:
+            c.report("oracle answer malformed: %r" % m, {"machinery": l}, no_input=True)
+            return
+        if cls != ms[0] and bad["shipped"] is None:
+            bad["shipped"] = (l, g, ms[0])
+        if cls != ms[1] and bad["repaired"] is None:
+            bad["repaired"] = (l, g, ms[1])
+    which = "shipped" if bad["shipped"] is None else ("repaired" if bad["repaired"] is None else None)
+    c.cov["header_core"] = {"cases": len(lines), "implementation_panics": npanic, "agrees_with_model": which or "neither"}
+    if which is None:
+        l, g, m = bad["shipped"]
+        l2, g2, m2 = bad["repaired"]
+        c.report("header validation core agrees with neither model: on `%s` implementation `%s` shipped model `%s`; on `%s` "
+                 "implementation `%s` repaired model `%s`" % (l, g[:80], m, l2, g2[:80], m2),
+                 {"case": l, "implementation": g, "model_shipped": m, "case2": l2, "implementation2": g2, "model_repaired": m2,
+                  "rerun": "echo '%s' | bin/vharness ; echo '%s' | bin/oracle" % (l, l)})
 
 
 def replay(path):
